@@ -17,7 +17,13 @@ class ValuesGet(SymVal):
     def __init__(self, names): self.names = names
     def sym_getattr(self, it, name):
         if name == 'get': return Contract(lambda it, k, d=None: ValName(k) if k in self.names else d, 'values.get')
+        if name in self.names: return ValName(name)          # enum member access: values.T
+        if name in ('F', 'N', 'B', 'T'): raise PyExc(AttributeError, (name,))
         raise Outside(name)
+    def sym_getitem(self, it, k):
+        n = k.name if isinstance(k, ValName) else k
+        if n in self.names: return ValName(n)
+        raise PyExc(KeyError, (n,))
 
 def export_world():
     w = World()
@@ -49,9 +55,12 @@ def having_obligations(ctx):
                 def sym_getattr(s, it, name):
                     if name == 'model': return Holder(values=ValuesGet(vnames), Meta=Holder(many_valued=len(vnames) > 2))
                     if name == 'items': return Contract(lambda it: GenList(items), 'Mapping.items')
-                    if name == 'having':
+                    import types as _t
+                    v_ = PredicateInterpretation.__dict__.get(name)
+                    if isinstance(v_, _t.FunctionType):          # having, and any helper the class defines for itself: interpreted from source
                         from pyvc.interp import BoundSource
-                        return BoundSource(fi, fn, PredicateInterpretation, s)
+                        f_ = source.of_function(v_); ctx.under_contract(f_)
+                        return BoundSource(f_, v_, PredicateInterpretation, s)
                     raise Outside(name)
             for req, want_set in ((('T', 'B'), {'T', 'B'}), (('B', 'F'), {'B', 'F'})):
                 n += 1
@@ -238,6 +247,35 @@ def get_data_obligation(ctx):
     ctx.add(enum_ob('C20.get_data.frames-aligned', bad is None, where=where, cex=bad,
                     clause='worlds are listed sorted; the i-th frame record describes the i-th listed world and carries that world\'s frame data, whatever order the frames were created in; Access lists flat(w1s=worlds, sort=True); a non-modal model exports frame 0'))
 
+def replay_predicate_data(r):
+    "real models that give F(a), F(b), ... every value of the logic: the exported extension / anti-extension vs the value"
+    from pytableaux.logics import registry
+    from pytableaux.lang import Predicate, Constant
+    out = []
+    for L in ('FDE', 'K3', 'LP', 'CPL', 'KFDE'):
+        logic = registry(L); m = logic.Model()
+        F = Predicate(0, 0, 1)
+        vals = list(logic.Meta.values)
+        consts = [Constant(i % 4, i // 4) for i in range(len(vals))]
+        for c, v in zip(consts, vals): m.set_predicated_value(F(c), v)
+        m.finish()
+        d = m.get_data()
+        frame = d['Frames']['values'][0]['value'] if logic.Meta.modal else d
+        preds = frame['Predicates']['values']
+        listed = {}
+        for part in preds:
+            sym = part.get('symbol', '')
+            for row in part['values']:
+                if row.get('input') == F:
+                    listed.setdefault(sym, set()).update(tuple(t) for t in row.get('output', []))
+        plus = next((v for k, v in listed.items() if k.endswith('+') or (not logic.Meta.many_valued and not k.endswith('-'))), set())
+        minus = next((v for k, v in listed.items() if k.endswith('-')), set())
+        for c, v in zip(consts, vals):
+            inp, inm = (c,) in plus, (c,) in minus
+            if inp != (v.name in ('T', 'B')): out.append(f'{L}: F({c}) has value {v.name} but is {"" if inp else "not "}listed in the extension')
+            if logic.Meta.many_valued and inm != (v.name in ('B', 'F')): out.append(f'{L}: F({c}) has value {v.name} but is {"" if inm else "not "}listed in the anti-extension')
+    return dict(reproduced=bool(out), detail='; '.join(out[:3]) or 'export agrees with the values')
+
 def replay_get_data(r):
     "a real K model whose frames are created out of order"
     from pytableaux.logics import registry
@@ -269,6 +307,8 @@ def run(ctx):
     serial_world_obligation(ctx)
     bounded_export(ctx)
     ctx.replayers['C20.get_data.'] = replay_get_data
+    ctx.replayers['C20.predicate-data'] = replay_predicate_data
+    ctx.replayers['C20.having'] = replay_predicate_data
     ctx.replayers['C20.'] = lambda r: dict(reproduced=None, detail='see counterexample / meta')
 
 def replay(payload):
